@@ -4,7 +4,7 @@
 //!
 //! * bit 0..2  — `argsort` tie order (0 = by index (stable), 1 = reverse index, 2.. = seeded)
 //! * bit 3..5  — numbering of connected components (0 = first occurrence, 1 = reversed, 2.. = rotated)
-//! * bit 6..8  — key order of `sparse_bincount` (0 = ascending, 1 = descending, 2.. = rotated)
+//! * bit 6..8  — key order of `sparse_bincount` (0 = ascending, 1 = descending, 7 = alternating from call to call, else rotated)
 //! * bit 9..11 — filler of `scatter` for unwritten slots (0 = first element, 1 = last, 2.. = seeded)
 //!
 //! Configuration 0 resolves all four exactly as the Vec backend does.
@@ -23,11 +23,14 @@ thread_local! {
     static CFG: Cell<u64> = const { Cell::new(0) };
     /// how often an open choice was actually exercised: [ties, components>=2, keys>=2, unwritten]
     static USED: Cell<[u64; 4]> = const { Cell::new([0; 4]) };
+    /// number of `sparse_bincount` calls since the configuration was set (mode 7 answers differently on every other call)
+    static CALLS: Cell<u64> = const { Cell::new(0) };
 }
 
 pub fn set_config(c: u64) {
     CFG.with(|x| x.set(c));
     USED.with(|x| x.set([0; 4]));
+    CALLS.with(|x| x.set(0));
 }
 pub fn config() -> u64 {
     CFG.with(|x| x.get())
@@ -314,6 +317,16 @@ impl NaturalArray<AdvKind> for AdvArray<usize> {
             match field(2) {
                 0 => {}
                 1 => pairs.reverse(),
+                // the contract does not promise the same order on two calls either
+                7 => {
+                    let n = CALLS.with(|x| {
+                        x.set(x.get() + 1);
+                        x.get()
+                    });
+                    if n % 2 == 0 {
+                        pairs.reverse();
+                    }
+                }
                 mm => {
                     let rot = (scramble(mm, k as u64) % k as u64) as usize;
                     pairs.rotate_left(rot);
